@@ -234,7 +234,13 @@ def compare_twin(ctx, name, res, tres, alphabet, replay):
         return
     a, b = res[1], tres[1]
     if M.is_automaton(a) and hasattr(a, "accepts_input") and type(a).__name__ in ("DFA", "NFA"):
-        if M.lang_sig(a, alphabet) != M.lang_sig(b, alphabet):
+        try:
+            sa = M.lang_sig(a, alphabet)
+        except Exception as e:  # noqa: BLE001 - the returned automaton cannot even be run
+            ctx.prop_fail(f"{name}: running the returned automaton raises {type(e).__name__}: {str(e)[:80]}",
+                          replay, None)
+            return
+        if sa != M.lang_sig(b, alphabet):
             ctx.prop_fail(f"{name}: the result accepts a different language when rows keyed by non-states are present",
                           replay, None)
     elif isinstance(a, str) and name.endswith("to_regex"):
@@ -361,7 +367,7 @@ def run(ctx: Ctx):
     corpus(ctx, rng)
 
     # 1. bounded-exhaustive over (operator, position) on a few definitions per class
-    n_seed_defs = ctx.budget(4, 25)
+    n_seed_defs = ctx.budget(10, 60)
     for cls in G.CLASSES:
         for i in range(n_seed_defs):
             kw = G.rand_def(rng, cls)
@@ -370,10 +376,10 @@ def run(ctx: Ctx):
             for rule, exc, thunk in cors:
                 check_validate(ctx, cls, thunk(), "single_corruption", exc, rule)
             # all pairs for the first definitions (double-rule corruptions, model decides the order)
-            if i < ctx.budget(1, 4):
+            if i < ctx.budget(2, 6):
                 pairs = [(x, y) for x in range(len(cors)) for y in range(len(cors)) if x != y]
                 rng.shuffle(pairs)
-                for x, y in pairs[: ctx.budget(120, 1200)]:
+                for x, y in pairs[: ctx.budget(250, 1500)]:
                     k2 = double(kw, cls, cors[x], cors[y])
                     if k2 is not None:
                         check_validate(ctx, cls, k2, "double_corruption", None,
@@ -382,7 +388,7 @@ def run(ctx: Ctx):
                    "definitions of each of the 8 classes")
 
     # 2. shaped random: valid (with / without rows keyed by non-states), corrupted, options
-    for _ in range(ctx.budget(60, 1500)):
+    for _ in range(ctx.budget(300, 6000)):
         for cls in G.CLASSES:
             junk = cls in G.JUNK_CLASSES and rng.random() < 0.5
             kw = G.rand_def(rng, cls, junk=junk)
@@ -404,7 +410,7 @@ def run(ctx: Ctx):
             if rng.random() < 0.25:
                 check_construct_options(ctx, cls, kw, "valid")
     # 3. accepted definitions are usable, results valid, junk rows irrelevant
-    for _ in range(ctx.budget(22, 500)):
+    for _ in range(ctx.budget(90, 2500)):
         for cls in G.CLASSES:
             junk = cls in G.JUNK_CLASSES and rng.random() < 0.6
             kw = G.rand_def(rng, cls, junk=junk)
@@ -416,7 +422,7 @@ def run(ctx: Ctx):
                     check_validate(ctx, cls, k, "odd_accepted", None)
                     use_definition(ctx, cls, k, rng, f"odd_accepted:{tag}", finding=f"C19:{tag}")
     # 4. the four option combinations
-    for _ in range(ctx.budget(8, 200)):
+    for _ in range(ctx.budget(30, 800)):
         for cls in G.CLASSES:
             options_check(ctx, cls, G.rand_def(rng, cls), rng, "valid")
 
